@@ -54,41 +54,63 @@ def differs_one(ctx, req):
 
 
 def run_requests(ctx, tag, gen):
-    """gen(out) writes request lines. Runs implementation and model, returns comparison stats."""
+    """gen(out) writes request lines. Runs implementation and model and compares them line by line
+    (streaming: the thorough streams have tens of millions of lines)."""
     reqp = ctx.path(tag + ".req")
     with open(reqp, "w", encoding="utf-8") as out:
-        n = gen(out)
-    impl, model = t2nlib.run_both(reqp, ctx.work, tag)
-    reqs = open(reqp, encoding="utf-8").read().split("\n")
-    if reqs and reqs[-1] == "":
-        reqs.pop()
-    dis = []
-    if len(impl) != len(reqs) or len(model) != len(reqs):
-        dis.append({"request": "<stream %s>" % tag, "impl": "lines=%d" % len(impl), "model": "lines=%d" % len(model)})
-    for i, (a, b) in enumerate(zip(impl, model)):
-        if a != b:
-            if len(dis) < 200:
-                dis.append({"request": reqs[i], "impl": a[:600], "model": b[:600]})
-            else:
-                dis.append(None)
-    ndis = len(dis)
-    dis = [d for d in dis if d is not None]
-    # shrink the first few
+        gen(out)
+    a = os.path.join(ctx.work, tag + ".impl")
+    b = os.path.join(ctx.work, tag + ".model")
+    rc1, e1 = t2nlib.run_exec(t2nlib.HARNESS_BIN, reqp, a)
+    rc2, e2 = t2nlib.run_exec(t2nlib.DRIVER_BIN, reqp, b, args=("--cc", t2nlib.ensure_cc_table()))
+    if rc1 != 0:
+        raise RuntimeError("harness exec failed rc=%d: %s" % (rc1, e1))
+    if rc2 != 0:
+        raise RuntimeError("model driver failed rc=%d: %s" % (rc2, e2))
+    dis, ndis, n = [], 0, 0
+    distinct = set()
+    keep = tag == "script" or tag == "ds" or tag == "lookup" or tag.startswith("scan_")
+    reqs_k, impl_k = [], []
+    samples = []
+    with open(reqp, encoding="utf-8") as fr, open(a, encoding="utf-8") as fa, open(b, encoding="utf-8") as fb:
+        for rq in fr:
+            rq = rq.rstrip("\n")
+            la = fa.readline()
+            lb = fb.readline()
+            if la == "" or lb == "":
+                dis.append({"request": "<stream %s>" % tag, "impl": "truncated output" if la == "" else "ok", "model": "truncated output" if lb == "" else "ok"})
+                ndis += 1
+                break
+            la = la.rstrip("\n")
+            lb = t2nlib.normalize_model_line(lb.rstrip("\n"))
+            n += 1
+            if len(distinct) < 2000000:
+                distinct.add(hash(la))
+            if keep:
+                reqs_k.append(rq)
+                impl_k.append(la)
+            if n in (1, 1000, 100000):
+                samples.append({"request": rq[:300], "answer": la[:300]})
+            if la != lb:
+                ndis += 1
+                if len(dis) < 200:
+                    dis.append({"request": rq, "impl": la[:600], "model": lb[:600]})
     for d in dis[:3]:
         if d["request"].startswith("<"):
             continue
         try:
-            small = _shrink_request(d["request"], lambda r: differs_one(ctx, r))
-            d["shrunk"] = small
+            d["shrunk"] = _shrink_request(d["request"], lambda r: differs_one(ctx, r))
         except Exception as e:  # shrinking is best effort
             d["shrunk_error"] = str(e)
-    ctx.samples.setdefault(tag, [])
-    for i in (0, len(reqs) // 2, len(reqs) - 1):
-        if 0 <= i < len(reqs) and i < len(impl):
-            ctx.samples[tag].append({"request": reqs[i][:300], "answer": impl[i][:300]})
-    ctx._cache[tag] = (reqs, impl, model)
-    return {"requests": len(reqs), "disagreements": dis + [None] * 0, "n_disagreements": ndis,
-            "distinct_answers": len(set(impl))}
+    ctx.samples.setdefault(tag, []).extend(samples)
+    if keep:
+        ctx._cache[tag] = (reqs_k, impl_k, None)
+    for f in (a, b, reqp):
+        try:
+            os.unlink(f)
+        except OSError:
+            pass
+    return {"requests": n, "disagreements": dis, "n_disagreements": ndis, "distinct_answers": len(distinct)}
 
 
 def _multi(fs):
